@@ -10,18 +10,24 @@ verus! {
 //@@ INCLUDE lib/repr_stubs.rs
 //@@ INCLUDE lib/mul_glue_stubs.rs
 //@@ INCLUDE lib/pow_stubs.rs
+//@@ INCLUDE lib/shift_bv.rs
+//@@ INCLUDE lib/div_dword_bits_@BITS@.rs
 //@@ INCLUDE lib/dispatch_lemmas.rs
+//@@ INCLUDE lib/dispatch_mul_lemmas.rs
 //@@ INCLUDE lib/pow_lemmas.rs
 //@@ SIG integer/primitive/split_dword.rs
 //@@ SIG integer/primitive/shrink_dword.rs
+//@@ SIG integer/primitive/extend_word.rs
 pub mod math {
 use super::*;
 pub use super::math_stub::bit_len;
+//@@ SIG integer/math/max_exp_in_word.rs
 //@@ SIG integer/math/mul_add_carry_dword.rs
 }
 pub mod mul {
 use super::*;
 //@@ SIG integer/mul/mul_dword_in_place.rs
+//@@ SIG integer/mul/mul_word_in_place.rs
 }
 pub mod sqr {
 use super::*;
@@ -41,13 +47,11 @@ use super::super::*;
 pub mod pow {
 pub mod repr {
 use super::super::*;
-use super::super::math::bit_len;
+use super::super::math::{bit_len, max_exp_in_word};
 broadcast use crate::buffer_stub::ax_buffer_inv;
 //@@ FN integer/pow/pow_dword_base.rs
 //@@ FN integer/pow/pow_large_base.rs
-// NOT verified here (contract ASSUMED through SIG): pow_word_base -- its shortcuts rest on Word::pow, max_exp_in_word,
-// set_bit, is_power_of_two, trailing_zeros, usize::div_rem, none of which has a contract yet
-//@@ SIG integer/pow/pow_word_base.rs
+//@@ FN integer/pow/pow_word_base.rs
 // D2 link: `self.sqr()` is the hoisted method proved in unit int_mul_ops (mul_ops::repr::typedref_sqr)
 impl<'a> TypedReprRef<'a> {
     pub fn sqr(&self) -> (r: Repr)
